@@ -25,7 +25,7 @@ PROPERTY = "C17"
 LEVEL = "exploration"
 RULE = (
     "cases = one message of a generated family: (shm) every Comm class found in cascade.shm.api, sizes over 0..2^64-1 with "
-    "boundary emphasis at 2^31, 2^32, 2^32+-1, 2^40, 2^63, ASCII keys incl. empty, plus out-of-domain values (negative, >=2^64, "
+    "boundary emphasis at 2^31, 2^32, 2^32+-1, 2^40, 2^63, ASCII strings incl. empty and long ones (lengths around 256, 512, 1024, 65536), plus out-of-domain values (negative, >=2^64, "
     "non-ASCII) that must be rejected at encode time; (msg) every class of cascade.executor.msg through ser_message/des_message "
     "and through ReliableSender.send / send_data -> Listener over the in-memory zmq; (report) ControllerReport; (gateway) every "
     "request through request_response -> parse_request and every response through serialize_response -> the client's parser; "
@@ -55,7 +55,11 @@ MANIFEST = {
 BOUNDS = [0, 1, 255, 2**31 - 1, 2**31, 2**32 - 1, 2**32, 2**32 + 1, 2**40, 2**63 - 1, 2**63, 2**64 - 1]
 sizes = st.one_of(st.sampled_from(BOUNDS), st.integers(0, 2**64 - 1), st.integers(0, 2**20))
 bad_sizes = st.one_of(st.integers(-(2**70), -1), st.integers(2**64, 2**80))
-ascii_text = st.text(alphabet=st.characters(min_codepoint=0, max_codepoint=127), max_size=24)
+_short_ascii = st.text(alphabet=st.characters(min_codepoint=0, max_codepoint=127), max_size=24)
+# strings of every length class: the protocol admits any ASCII string (4-byte length prefix), e.g. a long repr(exception) as error
+_long_ascii = st.builds(lambda n, c: (c * n)[:n], st.sampled_from([25, 100, 255, 256, 257, 511, 512, 513, 1000, 1023, 1024, 1025, 4096, 65535, 65536, 70000]),
+                        st.sampled_from(["e", "ab", "xyz~", "\x00\x7f"]))
+ascii_text = st.one_of(_short_ascii, _short_ascii, _short_ascii, _long_ascii)
 nonascii_text = st.builds(lambda a, c, b: a + c + b, ascii_text, st.characters(min_codepoint=128, max_codepoint=0x2FFF,
                                                                                blacklist_categories=("Cs",)), ascii_text)
 names = st.text(alphabet="abct0.-_:/ é", max_size=8)
